@@ -268,6 +268,8 @@ def run(ctx):
     import importlib as _il10
     _il10.import_module("rules.c18").has_float_tests_both(db, rep, "D10-FLOAT-MODE-TRIGGER")
     d11_acc_lanes_limited(db, rep)
+    # D12: scratch registers are chosen against ALL live compiler variables (shared with C06)
+    _il10.import_module("rules.c06").compiler_var_scans_complete(db, rep, "D12-VAR-SCAN-COMPLETE")
     # a generated wrapper hands native code an uncleared stack executor: every counter the code reads must have been stored by it (shared with C03 D8)
     import emitstate as _es
     _names = {}
